@@ -90,7 +90,6 @@ func VC13Script(at, k, bp int) {
 	cancel()
 }
 
-
 // ---- looping programs on an address-consistent bus -----------------------------
 //
 // "for every program (tight jump loops, block-instruction loops, I/O loops)":
@@ -132,13 +131,14 @@ func (d *vLoopDev) Out(a uint8, v uint8)  { d.tick(); d.bus.Out(a, v) }
 // 6 OTIR | 7 INIR | 8 IN A,(n); JR -4 | 9 OUT (n),A; JP back | 10 memory full of DD |
 // 11 memory full of FD | 12 DD FD DD FD ... | 13 NOPs
 // mode: 0 BreakPoints nil, cancellable context | 1 BreakPoints an arbitrary set
-// the program never reaches | 2 a context with a (far) deadline, cancelled early
+// the program never reaches | 2 a context with a (far) deadline, cancelled early |
+// 3 a maskable request pending and refused for the whole run (IFF1 clear, no EI)
 func VC13Loop(kind, at, mode int) {
 	var s States
 	vHavoc(&s, "s")
 	bus := vNewBus("bus")
 	pc := s.PC
-	span := uint16(at + vPromptSteps + 20) // bytes/elements the run can reach before and after the cancellation
+	span := uint16(at + vPromptSteps + 20)              // bytes/elements the run can reach before and after the cancellation
 	notCode := func(a uint16) bool { return a-pc >= 4 } // a is outside pc..pc+3
 	switch kind {
 	case 0:
@@ -205,6 +205,11 @@ func VC13Loop(kind, at, mode int) {
 	dev := &vLoopDev{bus: bus, at: at, cancel: cancel}
 	c1 := &CPU{States: s, Memory: dev, IO: dev}
 	c2 := &CPU{States: s, Memory: twinBus, IO: twinBus}
+	if mode == 3 {
+		vAssume(!s.IFF1)
+		c1.IFF1, c2.IFF1 = false, false
+		c1.Interrupt, c2.Interrupt = IM1Interrupt(), IM1Interrupt()
+	}
 	if mode == 1 {
 		// breakpoints somewhere the program does not go (all kinds stay within 2*span bytes of pc)
 		k1, k2 := vU16("bpk1"), vU16("bpk2")
